@@ -488,7 +488,7 @@ class Sym:
     __rxor__ = __xor__
 
     def astype(self, dt):
-        return self
+        return cast_to(self, dt)
 
     def sum(self, *a, **k):
         return self
@@ -541,3 +541,55 @@ def ite(c, a, b):
     if ae.sort() != be.sort():
         ae, be = _num2(ae, be)
     return Sym(z3.If(c, ae, be))
+
+
+def dtype_kind(dt):
+    """'int' | 'float' | 'bool' | None for a dtype designator (numpy / jax dtype object, python type, string, or the
+    stubs' own 'int' / 'float' / 'bool' strings)"""
+    if dt is None:
+        return None
+    if dt in (int,):
+        return "int"
+    if dt in (float,):
+        return "float"
+    if dt in (bool,):
+        return "bool"
+    n = getattr(dt, "name", None) or getattr(dt, "__name__", None) or str(dt)
+    n = str(n).lower()
+    if "bool" in n:
+        return "bool"
+    if "int" in n:
+        return "int"
+    if "float" in n or "double" in n or "bfloat" in n:
+        return "float"
+    return None
+
+
+def trunc_to_int(e):
+    """float -> integer conversion as JAX / NumPy do it: truncation toward zero"""
+    return z3.If(e >= 0, z3.ToInt(e), -z3.ToInt(-e))
+
+
+def cast_to(x, dt):
+    """value conversion of .astype / asarray(dtype=...): float -> int TRUNCATES (a change of value, not only of type),
+    int -> float and bool -> number are exact; unknown dtypes leave the value as it is"""
+    k = dtype_kind(dt)
+    if k is None or not isinstance(x, Sym):
+        return x
+    s = x.e.sort()
+    if k == "int":
+        if s == z3.RealSort():
+            Assumed.note("dtype conversion float -> int truncates toward zero (JAX / NumPy astype, asarray(dtype=int), writes into an integer array)")
+            return Sym(trunc_to_int(x.e))
+        if s == z3.BoolSort():
+            return Sym(z3.If(x.e, z3.IntVal(1), z3.IntVal(0)))
+        return x
+    if k == "float":
+        if s == z3.IntSort():
+            return Sym(z3.ToReal(x.e))
+        if s == z3.BoolSort():
+            return Sym(z3.If(x.e, z3.RealVal(1), z3.RealVal(0)))
+        return x
+    if k == "bool" and z3.is_arith_sort(s):
+        return Sym(x.e != 0)
+    return x
